@@ -159,7 +159,7 @@ pub fn run(rep: &mut Report, thorough: bool) {
                 if tail > 0 {
                     rep.count("file_backed_stacks_with_inaccessible_tail", 1);
                 }
-                let shape = StackShape { pages, sp_offset, guard_mapping_pages: guard_map, fill_pattern: true, slots: Vec::new(), prot: 6, noaccess_file_tail_pages: tail };
+                let shape = StackShape { pages, sp_offset, guard_mapping_pages: guard_map, fill_pattern: true, slots: Vec::new(), prot: 6, noaccess_file_tail_pages: tail, low: k % 4 == 1 };
                 let mode = if k % 7 == 3 { Mode::Spin } else { Mode::Pause };
                 b.sentinel(&mut rng, mode, &shape, None, None);
             }
@@ -248,7 +248,79 @@ pub fn run(rep: &mut Report, thorough: bool) {
             }
         }
     }
+    exited_leader_lane(rep, &mut rng, if thorough { 6 } else { 1 });
     rep.require("stacks_judged", 50);
+    rep.require("exited_leader_stacks_judged", 2);
     rep.require("shortened_stacks_seen", 1);
     rep.require("guard_or_unmapped_sp_cases", 1);
+}
+
+
+/// A process whose main thread has left (`pthread_exit` from `main`, a raw exit syscall) while its
+/// workers run on. The workers are listed and their stack pointers lie in readable memory, so the
+/// statement applies to them like to any other thread.
+fn exited_leader_lane(rep: &mut Report, rng: &mut Rng, n: usize) {
+    for k in 0..n {
+        let mut b = Builder::new();
+        for _ in 0..2 {
+            b.sentinel(rng, Mode::Pause, &StackShape::default(), None, None);
+        }
+        b.spec.leader_exit = true;
+        let t = match Target::spawn(b.spec.clone(), &b.opts) {
+            Ok(t) => t,
+            Err(e) => {
+                rep.inconclusive(format!("exited-leader target did not start: {e}"));
+                continue;
+            }
+        };
+        let t0 = std::time::Instant::now();
+        while t.thread_status(t.pid).map(|s| s.0) != Some('Z') && t0.elapsed().as_secs() < 20 {
+            std::thread::sleep(std::time::Duration::from_millis(1));
+        }
+        if t.thread_status(t.pid).map(|s| s.0) != Some('Z') {
+            rep.inconclusive("the leader of an exited-leader target never became a zombie".into());
+            continue;
+        }
+        // (the harness reads the memory map through a live task: /proc/<pid>/maps is empty now)
+        let lines = t.maps();
+        let mut o = DumpOpts::new(t.pid, t.manifest.tids[b.sentinels[0].index]);
+        o.stop_timeout_ms = Some(30);
+        let (out, _) = {
+            let _g = dump::DUMP_LOCK.lock().unwrap_or_else(|e| e.into_inner());
+            dump::dump(&o)
+        };
+        rep.case(fnv(format!("exited-leader/{k}").as_bytes()), true);
+        match out {
+            Outcome::Ok(img) => {
+                let im = image::decode(&img);
+                for (pos, th) in im.threads.as_ref().map(|v| v.as_slice()).unwrap_or(&[]).iter().enumerate() {
+                    let Some(ctx) = &th.ctx else { continue };
+                    if !t.manifest.tids.contains(&(th.tid as i32)) {
+                        continue;
+                    }
+                    let sp = ctx.rsp();
+                    rep.count("exited_leader_stacks_judged", 1);
+                    if th.stack_size == 0 && lines.iter().any(|l| l.start <= sp && sp < l.end && l.perms.starts_with('r')) {
+                        rep.violation(
+                            "C06 stack empty on a target whose thread-group leader has exited (memory map taken from the zombie leader)",
+                            json!({"tid": th.tid, "sp": format!("{sp:#x}"), "soft_errors": im.soft_errors(), "note": "/proc/<pid>/maps of an exited leader reads empty; /proc/<pid>/task/<live tid>/maps does not"}),
+                        );
+                        continue;
+                    }
+                    let sv = judge_stack(&t, &lines, &img, th, sp, pos, false, false, true);
+                    rep.count("stack_bytes_compared", sv.bytes_compared);
+                    for (kind, m) in sv.errors {
+                        rep.violation(&format!("C06 stack {kind}"), json!({"scenario": "exited leader", "tid": th.tid, "sp": format!("{sp:#x}"), "region": format!("{:#x}+{}", th.stack_start, th.stack_size), "message": m}));
+                    }
+                }
+            }
+            Outcome::Err(e) => {
+                rep.count("dumps_no_verdict(err)", 1);
+                rep.note(&format!("exited-leader target: no verdict (Err): {}", e.chars().take(160).collect::<String>()));
+            }
+            Outcome::Panic { message, location } => {
+                rep.violation(&format!("C06 panic at {location}"), json!({"scenario": "exited leader", "panic": message}));
+            }
+        }
+    }
 }
